@@ -2048,7 +2048,7 @@ int cif_value_parse_numb(cif_value_tp *n, UChar *text) {
 
         exp_start = pos;
         while ((text[pos] >= UCHAR_0) && (text[pos] <= UCHAR_9)) {
-            if (exponent < ((INT_MAX / 10) - 1)) {
+            if (exponent < (INT_MAX / 20)) {
                 exponent = (int) ((exponent * 10) + (text[pos] - UCHAR_0));
             } /* else the exponent is already far beyond the range of type double; ignore digits to avoid overflow */
             pos += 1;
